@@ -8,9 +8,13 @@
   slots. A connection is modelled in the ABSTRACTED form of its owner goroutine (`handleConn`; the
   reader / writer goroutines of `conn.go` are covered by `Kmip.SrvConn`): not yet accepted → held by
   `A` (between `Accept` and registration) → goroutine started → connect hook (ok / fails) → idle
-  (in `recv`) ⇄ handler running (a handler that returns by itself, or one that waits for the
-  cancellation of its context) → leaving (deferred terminate hook, `stream.Close`, `wg.Done` — ONE
-  step: the hook interacts with nothing) → its reader / writer still winding down → ended.
+  (in `recv`) → handler running (a handler that returns by itself, or one that waits for the
+  cancellation of its context) → sending the response (`stream.send`: ends with the response written
+  — which needs the client to read it —, with the client gone, or aborted through the server
+  context; the receive context plays no role there) → idle again … → leaving (deferred terminate
+  hook) → closing (`stream.Close`, `wg.Done`) → its reader / writer still winding down → ended.
+  `Params.closeWaits = true` is the PROPOSED repair of `conn.Close` (wait for reader and writer before
+  returning, hence before `wg.Done`): closing → (reader / writer ended) → finishing → (`wg.Done`) → ended.
   What the abstraction relies on (`Kmip.C08`): once the owner has closed the stream, reader and
   writer end by themselves; a step of one connection touches no other connection.
 
@@ -35,11 +39,16 @@ open Kmip.Lts
 
 structure Params where
   addUnderLock : Bool
+  /-- `conn.Close` waits for the reader and writer goroutines (NOT the current code: the TODO of
+      conn.go; see `Kmip.C16.C16_full_false`). -/
+  closeWaits : Bool := false
   deriving Repr, DecidableEq
 
 def current : Params := { addUnderLock := true }
 /-- before 267c9a5. -/
 def oldAddAfterWait : Params := { addUnderLock := false }
+/-- the proposed repair: `conn.Close` waits for readloop and writeloop. -/
+def fixedCloseWaits : Params := { addUnderLock := true, closeWaits := true }
 
 /-- accept loop (`Serve`). -/
 inductive APc where
@@ -78,9 +87,11 @@ inductive CPc where
   | idle          -- in stream.recv
   | busy          -- a handler is running (it will return by itself)
   | busySlow      -- a handler is running and waits for the cancellation of its context
+  | sending       -- the handler has returned its response: ctx check, stream.send (→ writer → client)
   | leaving       -- deferred: terminate hook (if the connect hook succeeded)
   | closing       -- deferred: stream.Close, wg.Done
   | winding       -- owner ended; reader / writer are still ending
+  | finishing     -- (closeWaits only) stream.Close has returned, reader / writer have ended: wg.Done
   | ended
   deriving DecidableEq, Repr, Inhabited
 
@@ -89,6 +100,7 @@ inductive Fault where
   | wgNegative        -- sync: negative WaitGroup counter (panic)
   | hookTwice         -- terminate hook runs twice for one connection
   | cancelEarly       -- a waiting handler is cancelled by the server context before the grace timer
+  | lostEarly         -- the response of a completed handler is abandoned … before the grace timer
   deriving DecidableEq, Repr, Inhabited
 
 /-- WaitGroup counter values (two slots and the accept loop: at most 3). -/
@@ -139,12 +151,16 @@ def Tm.toNat : Tm → Nat | .off => 0 | .armed => 1 | .stopped => 2 | .fired => 
 def Tm.ofN : Nat → Tm | 0 => .off | 1 => .armed | 2 => .stopped | _ => .fired
 def CPc.toNat : CPc → Nat
   | .free => 0 | .held => 1 | .refused => 2 | .started => 3 | .idle => 4 | .busy => 5
-  | .busySlow => 6 | .leaving => 7 | .winding => 8 | .ended => 9 | .closing => 10
+  | .busySlow => 6 | .leaving => 7 | .winding => 8 | .ended => 9 | .closing => 10 | .sending => 11
+  | .finishing => 12
 def CPc.ofN : Nat → CPc
   | 0 => .free | 1 => .held | 2 => .refused | 3 => .started | 4 => .idle | 5 => .busy
-  | 6 => .busySlow | 7 => .leaving | 8 => .winding | 9 => .ended | _ => .closing
-def Fault.toNat : Fault → Nat | .none => 0 | .wgNegative => 1 | .hookTwice => 2 | .cancelEarly => 3
-def Fault.ofN : Nat → Fault | 0 => .none | 1 => .wgNegative | 2 => .hookTwice | _ => .cancelEarly
+  | 6 => .busySlow | 7 => .leaving | 8 => .winding | 9 => .ended | 10 => .closing | 11 => .sending
+  | _ => .finishing
+def Fault.toNat : Fault → Nat
+  | .none => 0 | .wgNegative => 1 | .hookTwice => 2 | .cancelEarly => 3 | .lostEarly => 4
+def Fault.ofN : Nat → Fault
+  | 0 => .none | 1 => .wgNegative | 2 => .hookTwice | 3 => .cancelEarly | _ => .lostEarly
 def Wg.toNat : Wg → Nat | .w0 => 0 | .w1 => 1 | .w2 => 2 | .w3 => 3
 def Wg.ofN : Nat → Wg | 0 => .w0 | 1 => .w1 | 2 => .w2 | _ => .w3
 def bToNat : Bool → Nat | true => 1 | false => 0
@@ -161,8 +177,8 @@ theorem bOfNat_bToNat (b : Bool) : bOfNat (bToNat b) = b := by cases b <;> rfl
 theorem APc.toNat_lt (x : APc) : x.toNat < 6 := by cases x <;> decide
 theorem SPc.toNat_lt (x : SPc) : x.toNat < 10 := by cases x <;> decide
 theorem Tm.toNat_lt (x : Tm) : x.toNat < 4 := by cases x <;> decide
-theorem CPc.toNat_lt (x : CPc) : x.toNat < 11 := by cases x <;> decide
-theorem Fault.toNat_lt (x : Fault) : x.toNat < 4 := by cases x <;> decide
+theorem CPc.toNat_lt (x : CPc) : x.toNat < 13 := by cases x <;> decide
+theorem Fault.toNat_lt (x : Fault) : x.toNat < 5 := by cases x <;> decide
 theorem bToNat_lt (b : Bool) : bToNat b < 2 := by cases b <;> decide
 
 def APc.is (a b : APc) : Bool := Nat.beq a.toNat b.toNat
@@ -171,9 +187,9 @@ def Tm.is (a b : Tm) : Bool := Nat.beq a.toNat b.toNat
 def CPc.is (a b : CPc) : Bool := Nat.beq a.toNat b.toNat
 def Fault.is (a b : Fault) : Bool := Nat.beq a.toNat b.toNat
 
-/-- code of one connection slot (< 44), the sorting key of the slots. -/
+/-- code of one connection slot (< 52), the sorting key of the slots. -/
 def Conn.code (c : Conn) : Nat :=
-  Nat.add c.pc.toNat (Nat.mul 11 (Nat.add (bToNat c.hookOk) (Nat.mul 2 (bToNat c.termRan))))
+  Nat.add c.pc.toNat (Nat.mul 13 (Nat.add (bToNat c.hookOk) (Nat.mul 2 (bToNat c.termRan))))
 
 /-! ### events -/
 
@@ -184,6 +200,8 @@ inductive Ev where
   | hookOk | hookFail         -- connect hook outcome
   | request                   -- a request reaches an idle connection     (needs a client)
   | hRet | hSlow              -- handler returns / settles to wait for cancellation
+  | sent                      -- the response has been written (the client read it) (needs the client)
+  | sendAborted               -- `send` gives up: the server context is cancelled
   | hCancelled                -- a waiting handler returns because the server context is cancelled
   | gone                      -- the client disconnects (the connection context is cancelled)
   | leave                     -- the deferred terminate hook (if registered)
@@ -195,7 +213,7 @@ inductive Ev where
 
 /-- needs the client, the caller of Shutdown or the clock. -/
 def Ev.isEnv : Ev → Bool
-  | .accept | .request | .gone | .shutdown | .fire => true
+  | .accept | .request | .gone | .shutdown | .fire | .sent => true
   | _ => false
 
 /-! ### field updates (small definitions: see `Kmip.SrvConn`) -/
@@ -237,6 +255,9 @@ def cLeave (x : State) (c o : Conn) : State :=
 /-- deferred `stream.Close()` and `srv.wg.Done()`; reader and writer wind down afterwards. -/
 def cClose (x : State) (c o : Conn) : State := (x.wgDone).setConns (c.setPc .winding) o
 
+/-- (closeWaits) deferred `srv.wg.Done()` once `stream.Close()` has returned. -/
+def cFinish (x : State) (c o : Conn) : State := (x.wgDone).setConns (c.setPc .ended) o
+
 def cStarted (x : State) (c o : Conn) : List (Ev × State) :=
   [(.hookOk, x.setConns ((c.setHookOk true).setPc .idle) o),
    (.hookFail, x.setConns (c.setPc .leaving) o)]
@@ -247,11 +268,21 @@ def cIdle (x : State) (c o : Conn) : List (Ev × State) :=
   [(.request, x.setConns (c.setPc .busy) o), (.gone, x.setConns (c.setPc .leaving) o)] ++
   (bif x.recvCtx || x.srvCtx then [(Ev.c, x.setConns (c.setPc .leaving) o)] else [])
 
-/-- the handler returns: the response is sent and the loop goes on, or the loop is left (the
-    context is cancelled, or the write fails). -/
+/-- the handler returns its response (or settles to wait for its context). -/
 def cBusy (x : State) (c o : Conn) : List (Ev × State) :=
-  [(.hRet, x.setConns (c.setPc .idle) o), (.hRet, x.setConns (c.setPc .leaving) o),
-   (.hSlow, x.setConns (c.setPc .busySlow) o)]
+  [(.hRet, x.setConns (c.setPc .sending) o), (.hSlow, x.setConns (c.setPc .busySlow) o)]
+
+/-- the response of a completed handler (`if ctx.Err() != nil { break }; stream.send(resp)`): it is
+    written and the loop goes on (the client has to read it; the RECEIVE context is not consulted
+    here: `Shutdown` does not abandon it), or the client has gone (connection context cancelled /
+    write failure), or the server context is cancelled (only legitimate once the grace timer has
+    fired, or after `Shutdown`'s final cancel — when no connection is left). -/
+def cSending (x : State) (c o : Conn) : List (Ev × State) :=
+  [(.sent, x.setConns (c.setPc .idle) o), (.gone, x.setConns (c.setPc .leaving) o)] ++
+  (bif x.srvCtx then
+    [(Ev.sendAborted, bif x.tm.is .fired then x.setConns (c.setPc .leaving) o
+                      else x.setFault .lostEarly)]
+   else [])
 
 /-- a handler waiting for its context: cancelled through the server context (only legitimate once
     the grace timer has fired, or after `Shutdown`'s final cancel), or because the client has gone. -/
@@ -262,7 +293,7 @@ def cBusySlow (x : State) (c o : Conn) : List (Ev × State) :=
    else []) ++
   [(Ev.gone, x.setConns (c.setPc .leaving) o)]
 
-def conn (x : State) (c o : Conn) : List (Ev × State) :=
+def conn (p : Params) (x : State) (c o : Conn) : List (Ev × State) :=
   match c.pc with
   | .free => []
   | .held => []
@@ -271,9 +302,12 @@ def conn (x : State) (c o : Conn) : List (Ev × State) :=
   | .idle => cIdle x c o
   | .busy => cBusy x c o
   | .busySlow => cBusySlow x c o
+  | .sending => cSending x c o
   | .leaving => [(.leave, cLeave x c o)]
-  | .closing => [(.done, cClose x c o)]
+  | .closing => bif p.closeWaits then [(.wound, x.setConns (c.setPc .finishing) o)]
+                else [(.done, cClose x c o)]
   | .winding => [(.wound, x.setConns (c.setPc .ended) o)]
+  | .finishing => [(.done, cFinish x c o)]
   | .ended => []
 
 /-! ### accept loop -/
@@ -327,8 +361,8 @@ def stepTm (x : State) : List (Ev × State) :=
     (equal slots have equal steps). -/
 def stepL (p : Params) (x : State) : List (Ev × State) :=
   bif !(x.fault.is .none) then []
-  else stepA p x ++ stepS p x ++ stepTm x ++ conn x x.c0 x.c1 ++
-    (bif Nat.beq x.c0.code x.c1.code then [] else conn x x.c1 x.c0)
+  else stepA p x ++ stepS p x ++ stepTm x ++ conn p x x.c0 x.c1 ++
+    (bif Nat.beq x.c0.code x.c1.code then [] else conn p x x.c1 x.c0)
 
 def sys (p : Params) : Sys State := { init := init, step := fun x => (stepL p x).map (·.2) }
 
@@ -337,9 +371,15 @@ def sys (p : Params) : Sys State := { init := init, step := fun x => (stepL p x)
 /-- the owner goroutine of the connection is running. -/
 def Conn.alive (c : Conn) : Bool :=
   c.pc.is .started || c.pc.is .idle || c.pc.is .busy || c.pc.is .busySlow || c.pc.is .leaving ||
-  c.pc.is .closing
+  c.pc.is .closing || c.pc.is .sending || c.pc.is .finishing
 
 def Conn.handling (c : Conn) : Bool := c.pc.is .busy || c.pc.is .busySlow
+
+/-- a request is in flight on the connection: its handler is running, or its response is being sent. -/
+def Conn.inFlight (c : Conn) : Bool := c.pc.is .busy || c.pc.is .busySlow || c.pc.is .sending
+
+/-- a request in flight that only the server context can end (a waiting handler; a response in `send`). -/
+def Conn.cancellable (c : Conn) : Bool := c.pc.is .busySlow || c.pc.is .sending
 
 /-- the connection's goroutines (owner, reader, writer) have all ended, or never existed. -/
 def Conn.quiet (c : Conn) : Bool :=
@@ -351,8 +391,10 @@ def Conn.quiet (c : Conn) : Bool :=
 def Conn.hooksBad (c : Conn) : Bool :=
   (c.termRan && !c.hookOk) ||
   (c.termRan && (c.pc.is .started || c.pc.is .idle || c.pc.is .busy || c.pc.is .busySlow ||
+                 c.pc.is .sending ||
                  c.pc.is .leaving || c.pc.is .free || c.pc.is .held || c.pc.is .refused)) ||
-  ((c.pc.is .closing || c.pc.is .winding || c.pc.is .ended) && (c.termRan ^^ c.hookOk)) ||
+  ((c.pc.is .closing || c.pc.is .winding || c.pc.is .finishing || c.pc.is .ended) &&
+    (c.termRan ^^ c.hookOk)) ||
   (c.hookOk && (c.pc.is .free || c.pc.is .held || c.pc.is .refused || c.pc.is .started))
 
 def returned (x : State) : Bool := x.s.is .returned
@@ -368,7 +410,7 @@ def acceptEnds (x : State) : Bool :=
 def afterShutdownBad (x : State) : Bool :=
   returned x &&
     (!x.lClosed || !acceptEnds x || !x.srvCtx || !x.recvCtx ||
-     x.c0.handling || x.c1.handling ||            -- a handler is running
+     x.c0.inFlight || x.c1.inFlight ||            -- a handler is running / a response being sent
      x.c0.alive || x.c1.alive ||                  -- an owner goroutine is running (could start one)
      !(Nat.beq x.wg.toNat 0) ||
      x.tm.is .armed)                              -- the timer is still pending
@@ -383,20 +425,31 @@ def goroutinesBad (p : Params) (x : State) : Bool :=
 def wgExpected (x : State) : Nat :=
   Nat.add (Nat.add (bToNat x.c0.alive) (bToNat x.c1.alive)) (bToNat (x.a.is .spawn))
 
+/-- the server context is cancelled although the grace timer has not fired, while a request is in
+    flight that this cancels (a waiting handler, a response being sent). -/
+def graceBad (x : State) : Bool :=
+  x.srvCtx && !(x.tm.is .fired) && (x.c0.cancellable || x.c1.cancellable)
+
+/-- (closeWaits only) a reader / writer goroutine of a connection is alive although `Shutdown` has
+    returned. -/
+def rwLateBad (p : Params) (x : State) : Bool :=
+  p.closeWaits && returned x && !(x.c0.quiet && x.c1.quiet)
+
 def bad (p : Params) (x : State) : Bool :=
   !(x.fault.is .none) || afterShutdownBad x || goroutinesBad p x ||
-  x.c0.hooksBad || x.c1.hooksBad || !(Nat.beq x.wg.toNat (wgExpected x))
+  x.c0.hooksBad || x.c1.hooksBad || !(Nat.beq x.wg.toNat (wgExpected x)) || graceBad x ||
+  rwLateBad p x
 
 /-! ### coding -/
 
 def digits (x : State) : List (Nat × Nat) :=
-  [(x.a.toNat, 6), (x.s.toNat, 10), (x.tm.toNat, 4), (x.fault.toNat, 4), (bToNat x.lClosed, 2),
+  [(x.a.toNat, 6), (x.s.toNat, 10), (x.tm.toNat, 4), (x.fault.toNat, 5), (bToNat x.lClosed, 2),
    (bToNat x.locked, 2), (bToNat x.shuttingDown, 2), (bToNat x.recvCtx, 2), (bToNat x.srvCtx, 2),
    (x.wg.toNat, 4),
-   (x.c0.pc.toNat, 11), (bToNat x.c0.hookOk, 2), (bToNat x.c0.termRan, 2),
-   (x.c1.pc.toNat, 11), (bToNat x.c1.hookOk, 2), (bToNat x.c1.termRan, 2)]
+   (x.c0.pc.toNat, 13), (bToNat x.c0.hookOk, 2), (bToNat x.c0.termRan, 2),
+   (x.c1.pc.toNat, 13), (bToNat x.c1.hookOk, 2), (bToNat x.c1.termRan, 2)]
 
-def radices : List Nat := [6, 10, 4, 4, 2, 2, 2, 2, 2, 4, 11, 2, 2, 11, 2, 2]
+def radices : List Nat := [6, 10, 4, 5, 2, 2, 2, 2, 2, 4, 13, 2, 2, 13, 2, 2]
 
 def ofDigits : List Nat → State
   | [a0, a1, a2, a3, a4, a5, a6, a7, a8, a9, a10, a11, a12, a13, a14, a15] =>
@@ -410,12 +463,12 @@ def ofDigits : List Nat → State
 /-- `pack (digits x)` (`code_eq`), written with the primitives the kernel evaluates natively. -/
 def code (x : State) : Nat :=
   Nat.add x.a.toNat (Nat.mul 6 (Nat.add x.s.toNat (Nat.mul 10 (Nat.add x.tm.toNat (Nat.mul 4
-  (Nat.add x.fault.toNat (Nat.mul 4 (Nat.add (bToNat x.lClosed) (Nat.mul 2
+  (Nat.add x.fault.toNat (Nat.mul 5 (Nat.add (bToNat x.lClosed) (Nat.mul 2
   (Nat.add (bToNat x.locked) (Nat.mul 2 (Nat.add (bToNat x.shuttingDown) (Nat.mul 2
   (Nat.add (bToNat x.recvCtx) (Nat.mul 2 (Nat.add (bToNat x.srvCtx) (Nat.mul 2
-  (Nat.add x.wg.toNat (Nat.mul 4 (Nat.add x.c0.pc.toNat (Nat.mul 11
+  (Nat.add x.wg.toNat (Nat.mul 4 (Nat.add x.c0.pc.toNat (Nat.mul 13
   (Nat.add (bToNat x.c0.hookOk) (Nat.mul 2 (Nat.add (bToNat x.c0.termRan) (Nat.mul 2
-  (Nat.add x.c1.pc.toNat (Nat.mul 11 (Nat.add (bToNat x.c1.hookOk) (Nat.mul 2
+  (Nat.add x.c1.pc.toNat (Nat.mul 13 (Nat.add (bToNat x.c1.hookOk) (Nat.mul 2
   (bToNat x.c1.termRan))))))))))))))))))))))))))))))
 
 theorem code_eq (x : State) : code x = pack (digits x) := rfl
@@ -425,19 +478,19 @@ def decode (n : Nat) : State :=
   { a := .ofN (Nat.mod (Nat.div n 1) 6),
     s := .ofN (Nat.mod (Nat.div n 6) 10),
     tm := .ofN (Nat.mod (Nat.div n 60) 4),
-    fault := .ofN (Nat.mod (Nat.div n 240) 4),
-    lClosed := bOfNat (Nat.mod (Nat.div n 960) 2),
-    locked := bOfNat (Nat.mod (Nat.div n 1920) 2),
-    shuttingDown := bOfNat (Nat.mod (Nat.div n 3840) 2),
-    recvCtx := bOfNat (Nat.mod (Nat.div n 7680) 2),
-    srvCtx := bOfNat (Nat.mod (Nat.div n 15360) 2),
-    wg := .ofN (Nat.mod (Nat.div n 30720) 4),
-    c0 := { pc := .ofN (Nat.mod (Nat.div n 122880) 11),
-            hookOk := bOfNat (Nat.mod (Nat.div n 1351680) 2),
-            termRan := bOfNat (Nat.mod (Nat.div n 2703360) 2) },
-    c1 := { pc := .ofN (Nat.mod (Nat.div n 5406720) 11),
-            hookOk := bOfNat (Nat.mod (Nat.div n 59473920) 2),
-            termRan := bOfNat (Nat.mod (Nat.div n 118947840) 2) } }
+    fault := .ofN (Nat.mod (Nat.div n 240) 5),
+    lClosed := bOfNat (Nat.mod (Nat.div n 1200) 2),
+    locked := bOfNat (Nat.mod (Nat.div n 2400) 2),
+    shuttingDown := bOfNat (Nat.mod (Nat.div n 4800) 2),
+    recvCtx := bOfNat (Nat.mod (Nat.div n 9600) 2),
+    srvCtx := bOfNat (Nat.mod (Nat.div n 19200) 2),
+    wg := .ofN (Nat.mod (Nat.div n 38400) 4),
+    c0 := { pc := .ofN (Nat.mod (Nat.div n 153600) 13),
+            hookOk := bOfNat (Nat.mod (Nat.div n 1996800) 2),
+            termRan := bOfNat (Nat.mod (Nat.div n 3993600) 2) },
+    c1 := { pc := .ofN (Nat.mod (Nat.div n 7987200) 13),
+            hookOk := bOfNat (Nat.mod (Nat.div n 103833600) 2),
+            termRan := bOfNat (Nat.mod (Nat.div n 207667200) 2) } }
 
 theorem decode_eq (n : Nat) : decode n = ofDigits (unpack radices n) := by
   have h := unpackW_eq radices 1 n
